@@ -960,6 +960,8 @@ def _hasattr(interp, args, kwargs, node, env):
         return a in o.attrs or interp.find_method(o.attrs['__class__'], a) is not None
     if isinstance(o, Obj) and o.kind == 'pa':
         return a in o.attrs['properties'] or a in PA_METHODS
+    if isinstance(o, Obj) and o.kind == 'mock':
+        return a in o.attrs
     return Opaque('hasattr(%s,%s)' % (key_of(o), a))
 
 
@@ -996,6 +998,13 @@ def _super(interp, args, kwargs, node, env):
     return SuperRef(cls, obj)
 
 
+def _dir(interp, args, kwargs, node, env):
+    o = args[0]
+    if isinstance(o, Obj) and o.kind == 'mock':
+        return sorted(k for k in o.attrs if not k.startswith('__'))
+    raise Unsupported('dir of %s' % key_of(o))
+
+
 def _len(interp, args, kwargs, node, env):
     v = args[0]
     if isinstance(v, Obj) and v.kind == 'propmap':
@@ -1030,7 +1039,7 @@ def _enumerate(interp, args, kwargs, node, env):
 
 
 BUILTINS = {'list': _list, 'set': _set, 'tuple': _tuple, 'dict': _dict, 'isinstance': _isinstance, 'hasattr': _hasattr, 'getattr': _getattr, 'setattr': _setattr, 'super': _super,
-            'len': _len, 'print': _print, 'sorted': _sorted, 'range': _range, 'zip': _zip, 'enumerate': _enumerate, 'abs': _b(abs), 'max': _b(max), 'min': _b(min),
+            'len': _len, 'dir': _dir, 'print': _print, 'sorted': _sorted, 'range': _range, 'zip': _zip, 'enumerate': _enumerate, 'abs': _b(abs), 'max': _b(max), 'min': _b(min),
             'float': _b(float), 'int': _b(int), 'str': _b(str), 'bool': _b(bool), 'sum': _b(sum), 'round': _b(round), 'any': _b(any), 'all': _b(all),
             'True': True, 'False': False, 'None': None, 'object': Opaque('object'), 'RuntimeError': Opaque('RuntimeError'), 'ValueError': Opaque('ValueError'),
             'NotImplementedError': Opaque('NotImplementedError'), 'KeyError': Opaque('KeyError'), 'TypeError': Opaque('TypeError')}
